@@ -55,7 +55,7 @@ CLAIM = {
              "The trace monitor (t1.trace) is the decidable reflection of the proved history predicates (EvOK/ReachInv) on the observable events of the real run; "
              "it is not itself proved equal to them. "
              "Unicode lowercasing, NaN heap keys, parallel path internals and cross-call caching are not modelled. "
-             "A config without t1.decay raises KeyError in the real code as soon as a relaxation reaches _compute_decay; modelled as `err`."),
+             "A config without t1.decay (or with a falsy / partial one) uses the defaults of _compute_decay (repaired by 61a6e8c; the old KeyError is re-reported through corpus/C12/t1_nodecay__default_config.json)."),
     "technique": "Lean 4 loop-invariant proofs by induction on fuel over an exact executable model + exact differential execution with trace shims + Lean-evaluated monitors",
     "design_ref": "DESIGN.md §4 C12",
 }
@@ -100,10 +100,13 @@ def build_t1cfg(case: dict) -> dict:
     t = {}
     for k, v in case["t1"].items():
         if k == "decay":
-            d = {}
-            for kk, vv in v.items():
-                d[kk] = vv if kk == "mode" else _f(vv)
-            t[k] = d
+            if v is None:
+                t[k] = None
+            else:
+                d = {}
+                for kk, vv in v.items():
+                    d[kk] = vv if kk == "mode" else _f(vv)
+                t[k] = d
         elif k == "edge_type_mult":
             t[k] = {kk: _f(vv) for kk, vv in v.items()}
         elif k == "node_budget":
@@ -374,7 +377,7 @@ def cfg_json(case: dict, eps_bits: str) -> dict:
 
     sl = case.get("slice") or {}
     decay = None
-    if "decay" in t:
+    if t.get("decay"):  # absent / None / {} => all defaults (`cfg_t1.get("decay", {}) or {}`)
         d = t["decay"]
         decay = {"attn_quad": d.get("mode", "exp_floor") == "attn_quad",
                  "rate": d.get("rate"), "floor": d.get("floor"), "alpha": d.get("alpha")}
@@ -538,6 +541,23 @@ def gen_case(rng: random.Random, i: int, decay_present: bool = True) -> dict:
     if rng.random() < 0.05:
         rng.shuffle(active)
     t: Dict[str, Any] = {}
+    if not decay_present:
+        # absent / falsy / partial decay sections: defaults of the code apply
+        r = rng.random()
+        if r < 0.4:
+            pass
+        elif r < 0.5:
+            t["decay"] = None
+        elif r < 0.6:
+            t["decay"] = {}
+        elif r < 0.7:
+            t["decay"] = {"mode": "attn_quad"}
+        elif r < 0.8:
+            t["decay"] = {"rate": f2b(rng.choice([0.9, 0.5, 1.0]))}
+        elif r < 0.9:
+            t["decay"] = {"floor": f2b(rng.choice([0.0, 0.5, 1e-6]))}
+        else:
+            t["decay"] = {"mode": rng.choice(["exp_floor", "other"]), "alpha": f2b(0.25)}
     if decay_present:
         mode = rng.choice(["exp_floor", "exp_floor", "attn_quad", "other", None])
         d: Dict[str, Any] = {}
@@ -631,7 +651,10 @@ class T1Comp(Component):
 
     def impl(self, case: dict) -> Any:
         trace = not parallel_on(case)
-        out = call_real(case, case["active"], trace)
+        try:
+            out = call_real(case, case["active"], trace)
+        except Exception as e:  # well-formed input: the stage must complete (monitor `completes`)
+            return {"raised_exc": type(e).__name__, "msg": str(e)[:200]}
         # per-graph runs of the real code (for the concat / per-graph budget monitors)
         singles = None
         if len(case["active"]) > 1:
@@ -650,18 +673,10 @@ class T1Comp(Component):
     def compare(self, case, impl_out, model_out) -> Optional[str]:
         if isinstance(model_out, dict) and "__model_err__" in model_out:
             return f"model error {model_out['__model_err__']}"
-        raised = isinstance(impl_out, dict) and "__raised__" in impl_out
-        if raised:
-            if impl_out["__raised__"] == "KeyError" and model_out.get("raised") == "KeyError":
-                return None
-            # the parallel fan-out wraps a task's exception
-            if (impl_out["__raised__"] == "ParallelError" and "KeyError" in str(impl_out.get("msg"))
-                    and parallel_on(case) and model_out.get("raised") == "KeyError"):
-                return None
-            return f"impl raised {impl_out['__raised__']}: {impl_out.get('msg')} ; model={str(model_out)[:200]}"
+        if isinstance(impl_out, dict) and ("__raised__" in impl_out or "raised_exc" in impl_out):
+            name = impl_out.get("__raised__") or impl_out.get("raised_exc")
+            return f"impl raised {name}: {impl_out.get('msg')} ; model={str(model_out)[:200]}"
         if "raised" in model_out:
-            if "decay" not in case["t1"]:
-                return None  # `.get("decay", {})`-style repair applied: only compared at the raises level
             return "model raised KeyError, impl did not"
         a = {"deltas": impl_out["deltas"],
              "metrics": impl_out["metrics"]}
@@ -688,6 +703,8 @@ class T1Comp(Component):
 
     def monitor_requests(self, case, impl_out) -> List[Tuple[str, dict]]:
         rq: List[Tuple[str, dict]] = []
+        if "raised_exc" in impl_out:
+            return rq
         cj = cfg_json(case, eps_bits())
         runs = [(case["active"], impl_out)]
         for a, s in zip(case["active"], impl_out.get("singles") or []):
@@ -715,6 +732,9 @@ class T1Comp(Component):
 
     def monitors(self, case, impl_out):
         res = []
+        if "raised_exc" in impl_out:
+            return [("completes", False, f"t1_propagate raised {impl_out['raised_exc']}: {impl_out.get('msg')} "
+                                         "on a well-formed store/text/config (no seeding, no propagation, no result)")]
         res.append(("purity", bool(impl_out["pure"]), "store/config/state changed by t1_propagate"))
         res.append(("delta_shape", bool(impl_out["ops_ok"]), "a delta is not {'op':'upsert_node','id':…}"))
         res.append(("graphs_touched", impl_out["flags"]["graphs_touched"] == len(case["active"]),
@@ -737,6 +757,8 @@ class T1Comp(Component):
         return res
 
     def tags(self, case, impl_out):
+        if "raised_exc" in impl_out:
+            return ["raised:" + impl_out["raised_exc"]]
         t = set()
         m = impl_out["metrics"]
         if m["propagations"] > 0:
@@ -764,8 +786,10 @@ class T1Comp(Component):
         tr = impl_out.get("trace") or []
         if any(len(s["decays"]) > sum(1 for h in s["heap"] if not h[0]) for s in tr):
             t.add("eps_or_nodebudget_cut")
-        if "decay" not in case["t1"]:
-            t.add("no_decay_key")
+        if not case["t1"].get("decay"):
+            t.add("decay_absent_or_falsy")
+        elif set(case["t1"]["decay"]) - {"mode"} != {"rate", "floor", "alpha"}:
+            t.add("decay_partial")
         if (case["t1"].get("decay") or {}).get("mode") == "attn_quad" and m["propagations"] > 0:
             t.add("attn_quad")
         if "slice" in case and case["slice"]:
@@ -796,8 +820,8 @@ class T1Comp(Component):
 
 
 class T1NoDecay(T1Comp):
-    """Configs without `t1.decay` (the validated default): the real code raises KeyError as soon as a
-    relaxation reaches `_compute_decay`; compared at the raises level."""
+    """Configs without `t1.decay` (the validated default), with `decay: None` / `{}` or a partial decay dict:
+    the repaired `_compute_decay` falls back to its defaults; an ordinary exact-correspondence stream."""
     name = "t1_nodecay"
     budget = {"quick": 400, "thorough": 3000, "search": 1000}
     decay_present = False
